@@ -460,7 +460,14 @@ func (q *dq) block(list []ast.Stmt) string {
 }
 
 func (q *dq) typedInit(name string, kind string, val string) string {
-	return fmt.Sprintf("let mut %s : %s := %s", dqIdent(name), q.leanType(kind), val)
+	lt := q.leanType(kind)
+	if kind == "stack" || kind == "slice" {
+		lt = "List Nat"
+	}
+	if lt == "" {
+		fail("deque dialect: local variable %s of unsupported type", name)
+	}
+	return fmt.Sprintf("let mut %s : %s := %s", dqIdent(name), lt, val)
 }
 
 func (q *dq) stmt(s ast.Stmt) string {
@@ -491,11 +498,18 @@ func (q *dq) stmt(s ast.Stmt) string {
 		var lines []string
 		for _, sp := range gd.Specs {
 			vs := sp.(*ast.ValueSpec)
-			if len(vs.Values) != len(vs.Names) {
-				q.bad(s, "var without initial values")
+			if len(vs.Values) != 0 && len(vs.Values) != len(vs.Names) {
+				q.bad(s, "var with a multi-valued initialiser")
 			}
 			for i, n := range vs.Names {
-				lines = append(lines, q.typedInit(n.Name, q.k(n), q.expr(vs.Values[i])))
+				val := "0" // the zero value of Pointer, int, T, *Element[T]
+				if q.k(n) == "bool" {
+					val = "false"
+				}
+				if len(vs.Values) != 0 {
+					val = q.expr(vs.Values[i])
+				}
+				lines = append(lines, q.typedInit(n.Name, q.k(n), val))
 			}
 		}
 		return strings.Join(lines, "\n")
